@@ -58,6 +58,14 @@ def gen(tier, rng):
                     tags = ['nd', 'same-shape' if s1 == s2 else ('same-size' if n1 == n2 else ('same-rank' if len(s1) == len(s2) else 'diff-rank'))]
                     yield Case('isequal ak=nd as=%s ad=%s bk=nd bs=%s bd=%s' % (fmt(s1), fmt(d1), fmt(s2), fmt(d2)), hh, oracle=tf(eq),
                                nontrivial=(s1 != s2 or not eq), tags=tags + [hh])
+                # mixed static knowledge of the dimension: fixed-dim (std::array shape), bounded-dim (static_vector shape), dynamic
+                if len(variants) == 1 or d2 is variants[0][0] or d2 is variants[-1][0]:
+                    combos = [('ndf', 'nd'), ('nd', 'ndf'), ('ndf', 'ndb'), ('ndb', 'nd'), ('ndf', 'ndf'), ('ndb', 'ndf')]
+                    ka, kb = combos[(i + len(s2) + n2) % len(combos)]
+                    for (xa, xb) in ((ka, kb), combos[(i + n2 + 1) % len(combos)]):
+                        yield Case('isequal ak=%s as=%s ad=%s bk=%s bs=%s bd=%s' % (xa, fmt(s1), fmt(d1), xb, fmt(s2), fmt(d2)), hs[(i + n2) % len(hs)], oracle=tf(eq),
+                                   mreq='isequal ak=nd as=%s ad=%s bk=nd bs=%s bd=%s' % (fmt(s1), fmt(d1), fmt(s2), fmt(d2)),
+                                   nontrivial=(s1 != s2 or not eq), tags=tags + ['mixed-dim-kind', xa + '/' + xb])
                 if s1 == s2 or n1 == n2:
                     # isclose with eps 8: perturbation 7 is close, shape mismatch is not
                     close = (s1 == s2)
